@@ -35,14 +35,17 @@ CONSTANTS Shape,     \* sequence of field kinds of the base file, e.g. <<"magic"
 Kinds == {"magic", "size", "count", "ucount", "offset", "type", "data"}
 \* value classes per kind (what the concretiser writes is fixed per class, see harness/props/c01.go)
 Classes(k) == CASE k = "magic"  -> {"flip"}
-                [] k = "size"   -> {"zero", "one", "hdrMinus1", "exactMinus1", "exactPlus1", "beyondParent", "max16m1", "max16", "max31", "max32"}
+                [] k = "size"   -> {"zero", "one", "hdrMinus1", "exactMinus1", "exactPlus1", "beyondParent", "max16m1", "max16", "max31", "max32",
+                                    "wrap32",                   \* position + size = an EARLIER structure boundary modulo 2^32
+                                    "shrunk1", "shrunk3"}       \* the frame (and every frame around it) is consistently 1 / 3 bytes shorter: what lies inside ends early
                 [] k = "count"  -> {"zero", "exactPlus1", "c85", "c86", "c128", "c129", "max16"}
                 [] k = "ucount" -> {"zero", "one", "five", "c1025", "c4097", "huge30", "max32"}
                 [] k = "offset" -> {"zero", "backward", "self", "lastByte", "eof", "eofPlus1", "max31", "max32"}
                 [] k = "type"   -> {"t0", "t6", "t13", "t255"}
                 [] OTHER        -> {"short", "garbage", "zeroden", "allFF"}
 \* is the class consistent with what the stream can hold?  (the guard the design applies)
-InRange(k, c) == c \in {"exactMinus1", "one", "five", "zero", "backward", "self", "lastByte", "t6", "garbage", "flip", "short", "zeroden", "allFF", "t0", "t13", "t255"}
+InRange(k, c) == c \in {"exactMinus1", "one", "five", "zero", "backward", "self", "lastByte", "t6", "garbage", "flip", "short", "zeroden", "allFF", "t0", "t13", "t255",
+                        "shrunk1", "shrunk3"}
 
 VARIABLES plan,      \* sequence of [at, class]: field index and class written there
           cutAt, cutHow, fault,   \* truncation: field index (0 = none), how: "before" | "plus1" | "lastByte"
@@ -65,9 +68,12 @@ Init == /\ plan \in UNION {[1..m -> {[at |-> f, class |-> c] : f \in 1..N, c \in
         /\ fault \in {"EOF", "ERR"}
         /\ i = 1 /\ acc = {} /\ loops = 0 /\ alloc = 0 /\ pc = "read"
 
+\* a consistently shortened frame ends inside the field that follows its size field: to the reader the end of
+\* a frame is the end of the stream
+FrameCut(f) == f > 1 /\ ClassAt(f - 1) \in {"shrunk1", "shrunk3"}
 \* does the request for field f deliver all of its bytes?
-Delivered(f) == cutAt = 0 \/ f < cutAt
-ViewLen(f)   == IF Delivered(f) THEN 2 ELSE IF f = cutAt /\ cutHow # "before" THEN 1 ELSE 0   \* abstract: 2 = whole field, 1 = part, 0 = nothing
+Delivered(f) == (cutAt = 0 \/ f < cutAt) /\ ~FrameCut(f)
+ViewLen(f)   == IF Delivered(f) THEN 2 ELSE IF FrameCut(f) \/ (f = cutAt /\ cutHow # "before") THEN 1 ELSE 0   \* abstract: 2 = whole field, 1 = part, 0 = nothing
 
 \* the guarded design: one step per field
 ReadField ==
@@ -82,7 +88,7 @@ ReadField ==
             /\ IF c = "ok" \/ InRange(k, c)
                  THEN /\ i' = i + 1 /\ pc' = "read" /\ UNCHANGED <<loops, alloc>>
                  ELSE IF Mode = "trusting"
-                        THEN /\ loops' = IF k \in {"size", "count"} /\ c = "zero" THEN loops + 1 ELSE loops
+                        THEN /\ loops' = IF k \in {"size", "count"} /\ c \in {"zero", "wrap32"} THEN loops + 1 ELSE loops
                              /\ alloc' = IF k \in {"size", "count", "ucount"} /\ c \in {"max31", "max32", "huge30", "max16", "max16m1"} THEN alloc + 1 ELSE alloc
                              /\ i' = i + 1 /\ pc' = "read"
                         ELSE /\ pc' = "reject" /\ UNCHANGED <<i, loops, alloc>>     \* out-of-range value: error or skip, never used
